@@ -20,6 +20,8 @@ fn search_once(pos: &Pos, hm: u64, depth: u8, threads: usize, ctx: Option<Search
 }
 
 /// `registrations`: how often the root position is registered for repetition before the search
+static WATCHDOG_SECS: std::sync::atomic::AtomicU64 = std::sync::atomic::AtomicU64::new(300);
+
 fn search_once_reg(pos: &Pos, hm: u64, registrations: u32, depth: u8, threads: usize, ctx: Option<SearchContext>) -> (Value, Value, Option<SearchContext>, Option<i16>) {
     // run in a helper thread so that a hang is observed instead of hanging the harness
     let (tx, rx) = mpsc::channel();
@@ -46,7 +48,7 @@ fn search_once_reg(pos: &Pos, hm: u64, registrations: u32, depth: u8, threads: u
         let score = ctx.last_score();
         let _ = tx.send((res, obs(&board), Some(ctx), score));
     });
-    match rx.recv_timeout(Duration::from_secs(300)) {
+    match rx.recv_timeout(Duration::from_secs(WATCHDOG_SECS.load(std::sync::atomic::Ordering::Relaxed))) {
         Ok(x) => x,
         Err(_) => {
             let mut b = pos.setup_clocks(hm, 1);
@@ -70,6 +72,9 @@ pub fn basic(args: &[String]) {
     let mut searches = 0u64;
     let mut hung = false;
     'outer: for (i, pv) in positions.iter().enumerate() {
+        if (i as u64) < arg_u64(args, "--skip", 0) {
+            continue;
+        }
         let pos = Pos::from_json(pv);
         // histories matter too: every third root carries a half-move clock at / beyond the draw threshold,
         // every fifth has been registered three times (a drawn game in which the search is still asked)
@@ -90,6 +95,8 @@ pub fn basic(args: &[String]) {
             }
             // rotate the pool sizes over the positions; every size is used with every depth
             let t = pools[(i + d as usize) % pools.len()];
+            marker(&json!({"index": i, "fen": pos.fen(), "depth": d, "threads": t, "hm": hm, "registrations": regs}));
+            file.flush().unwrap();
             let (res, o, _, _) = search_once_reg(&pos, hm, regs, d, t, None);
             let timeout = res["kind"] == "timeout";
             writeln!(file, "{}", json!({"ev": "Search", "depth": d, "threads": t, "res": res, "obs": o})).unwrap();
@@ -608,6 +615,7 @@ pub fn sched(args: &[String]) {
         let mut outcomes: Vec<Value> = vec![];
         for s in 0..nsched {
             let keep = s % log_every.max(1) == 0;
+            marker(&json!({"fen": pos.fen(), "depth": depth, "schedule": s}));
             {
                 let mut g = sched.m.lock().unwrap();
                 g.n = nroot;
@@ -691,4 +699,41 @@ pub fn sched(args: &[String]) {
     file.flush().unwrap();
     println!("{}", json!({"searches": searches, "scheduling_steps": total_steps}));
     let _ = Board::new();
+}
+
+/// search-native <fens.json> <out.ndjson> --pools 1,4,16,48 --reps R --watchdog-secs W
+/// real thread pools (no scheduler) on richer positions; every run must give the 1-thread answer
+pub fn native(args: &[String]) {
+    let cases: Value = serde_json::from_str(&std::fs::read_to_string(&args[0]).unwrap()).unwrap();
+    let pools: Vec<usize> = arg_val(args, "--pools").unwrap_or("1,4,16,48".into()).split(',').map(|s| s.parse().unwrap()).collect();
+    let reps = arg_u64(args, "--reps", 2);
+    WATCHDOG_SECS.store(arg_u64(args, "--watchdog-secs", 90), std::sync::atomic::Ordering::Relaxed);
+    let mut file = std::io::BufWriter::new(std::fs::File::create(&args[1]).unwrap());
+    let mut searches = 0u64;
+    let mut hung = false;
+    'outer: for c in cases.as_array().unwrap() {
+        let pos = crate::trace::parse_fen(c["fen"].as_str().unwrap());
+        let depth = c["depth"].as_u64().unwrap() as u8;
+        let mut outcomes = vec![];
+        for &t in &pools {
+            for r in 0..(if t == 1 { 1 } else { reps }) {
+                marker(&json!({"fen": pos.fen(), "depth": depth, "threads": t}));
+                let (res, _o, _c, score) = search_once(&pos, 0, depth, t, None);
+                searches += 1;
+                let outcome = if res["kind"] == "ok" { json!({"kind": "ok", "m": res["m"], "score": score}) } else { res.clone() };
+                outcomes.push(json!({"schedule": format!("native{}#{}", t, r), "outcome": outcome}));
+                if res["kind"] == "timeout" {
+                    hung = true;
+                    writeln!(file, "{}", json!({"t": "outcomes", "pos": pos.to_json(), "depth": depth, "nroot": 0, "outcomes": outcomes})).unwrap();
+                    break 'outer;
+                }
+            }
+        }
+        writeln!(file, "{}", json!({"t": "outcomes", "pos": pos.to_json(), "depth": depth, "nroot": 0, "outcomes": outcomes})).unwrap();
+    }
+    file.flush().unwrap();
+    println!("{}", json!({"searches": searches, "scheduling_steps": 0, "hung": hung}));
+    if hung {
+        std::process::exit(0);
+    }
 }
